@@ -143,6 +143,20 @@ def pick(pool, i):
     return pool[0]
 
 
+def cbool(b):
+    """Concrete bool from a symbolic one: one explicit fork, after which the harness (and code running outside the
+    tracer) only ever sees True/False."""
+    return True if b else False
+
+
+def cint(i, lo, hi):
+    """Concrete int in lo..hi from a symbolic one (explicit fork per value; values outside select lo)."""
+    for k in range(lo, hi + 1):
+        if i == k:
+            return k
+    return lo
+
+
 class QuietDoc(dict):
     """A JSON object whose text rendering is constant.  Error messages in the
     repository format the whole input document (PathMatchFailure, handle_error);
